@@ -1,0 +1,45 @@
+//go:build verif
+
+package wc_rotation
+
+// The signing root offered for a validator index is the consensus-spec term
+//   compute_signing_root(BLSToExecutionChange(index, LIDO_KEY, LIDO_ADDRESS),
+//                        compute_domain(DOMAIN_BLS_TO_EXECUTION_CHANGE, GENESIS_FORK_VERSION, genesis_validators_root))
+// over an abstract SSZ hasher (checked by /verif/gocv; comment-only file). The constants are compared with
+// literals taken from the specification / the ceremony, independent of the initialisers in rotation.go.
+
+//@ import entity "github.com/lidofinance/dc4bc/pkg/wc_rotation/entity"
+
+// ---- constants
+//@ lemma[C17.const.domaintype] DomainBlsToExecutionChange == arr(10, 0, 0, 0)
+//@ lemma[C17.const.forkversion] GenesisForkVersion == arr(0, 0, 0, 0)
+//@ lemma[C17.const.genesisroot] GenesisValidatorRoot == arr(0x4b, 0x36, 0x3d, 0xb9, 0x4e, 0x28, 0x61, 0x20, 0xd7, 0x6e, 0xb9, 0x05, 0x34, 0x0f, 0xdd, 0x4e, 0x54, 0xbf, 0xe9, 0xf0, 0x6b, 0xf3, 0x3f, 0xf6, 0xcf, 0x5a, 0xd2, 0x7f, 0x51, 0x1b, 0xfe, 0x95)
+//@ lemma[C17.const.lidokey] LidoBlsPubKeyBB == arr(0xb6, 0x7a, 0xca, 0x71, 0xf0, 0x4b, 0x67, 0x30, 0x37, 0xb5, 0x40, 0x09, 0xb7, 0x60, 0xf1, 0x96, 0x1f, 0x38, 0x36, 0xe5, 0x71, 0x41, 0x41, 0xc8, 0x92, 0xaf, 0xdb, 0x75, 0xec, 0x08, 0x34, 0xdc, 0xe6, 0x78, 0x4d, 0x9c, 0x72, 0xed, 0x8a, 0xd7, 0xdb, 0x32, 0x8c, 0xff, 0x8f, 0xe9, 0xf1, 0x3e)
+//@ lemma[C17.const.address] ToExecutionAddress == arr(0xb9, 0xd7, 0x93, 0x48, 0x78, 0xb5, 0xfb, 0x96, 0x10, 0xb3, 0xfe, 0x8a, 0x5e, 0x44, 0x1e, 0x8f, 0xad, 0x7e, 0x29, 0x3f)
+
+// ---- the spec terms
+//@ spec func specForkDataRoot(version [4]byte, root [32]byte) [32]byte = sszRoot(traceFork(trEmpty(), version, root))
+//@ ghost func specDomain(domainType [4]byte, forkDataRoot [32]byte) [32]byte
+//@ axiom forall d [4]byte, r [32]byte, k int :: (0 <= k && k < 4 ==> specDomain(d, r)[k] == d[k]) && (0 <= k && k < 28 ==> specDomain(d, r)[4+k] == r[k])
+//@ spec func specSigningRoot(idx uint64) [32]byte = sszRoot(traceSigning(trEmpty(), sszRoot(traceBLS(trEmpty(), idx, LidoBlsPubKeyBB, ToExecutionAddress)), specDomain(DomainBlsToExecutionChange, specForkDataRoot(GenesisForkVersion, GenesisValidatorRoot))))
+
+//@ func computeForkDataRoot
+//@   safety C18,C17
+//@   pure
+//@   ensures[C17.forkdataroot] result1 == nil ==> result0 == specForkDataRoot(forkVersion, genesisValidatorsRoot)
+
+//@ func computeDomain
+//@   safety C18,C17
+//@   pure
+//@   ensures[C17.domain] result1 == nil ==> (forall k int :: 0 <= k && k < 4 ==> result0[k] == domainType[k]) && (forall k int :: 0 <= k && k < 28 ==> result0[4+k] == specForkDataRoot(forkVersion, genesisValidatorsRoot)[k])
+
+//@ func GetSigningRoot
+//@   safety C18,C17
+//@   pure
+//@   ensures[C17.signingroot] result1 == nil ==> (forall k int :: 0 <= k && k < 32 ==> result0[k] == specSigningRoot(validatorIndex)[k])
+
+// ---- the baked list (decided by evaluating the embedded file with the real strings.Split / strconv functions)
+//@ ground[C17.list.count] splitCount(ValidatorsIndexes, "\n") == 18633
+//@ ground[C17.list.wellformed] forall i int :: 0 <= i && i < 18632 ==> canonicalDecimal(splitPart(ValidatorsIndexes, "\n", i)) && decimalInt64(splitPart(ValidatorsIndexes, "\n", i)) && decimalValue(splitPart(ValidatorsIndexes, "\n", i)) >= 0
+//@ ground[C17.list.distinct] forall i int, j int :: 0 <= i && i < j && j < 18632 ==> decimalValue(splitPart(ValidatorsIndexes, "\n", i)) != decimalValue(splitPart(ValidatorsIndexes, "\n", j))
+//@ ground[C17.list.trailing] !decimalInt64(splitPart(ValidatorsIndexes, "\n", 18632))
